@@ -1,21 +1,71 @@
 package main
 
 import (
+	"fmt"
 	"go/token"
 	"go/types"
 )
 
+// float64 values are modelled abstractly: an uninterpreted sort F64 with uninterpreted arithmetic and
+// comparisons. Nothing is proved about floating-point results (the one function whose float behaviour
+// matters, grogu isDeviated, is handled separately; see DESIGN §9 C20).
+
+func (fc *FCtx) f64() *Sort { return fc.U.opaque("F64") }
+
 func (fc *FCtx) farith(op token.Token, x, y Val, t types.Type) Val {
-	oos("floating point arithmetic")
+	s := fc.f64()
+	name := map[token.Token]string{token.ADD: "f64_add", token.SUB: "f64_sub", token.MUL: "f64_mul", token.QUO: "f64_div"}[op]
+	if name == "" {
+		oos("float operator %s", op)
+	}
+	fc.U.Fun(name, []*Sort{s, s}, s)
+	return Val{T: app(name, fc.asF64(x).T, fc.asF64(y).T), S: s, GoT: t}
+}
+
+func (fc *FCtx) asF64(v Val) Val {
+	s := fc.f64()
+	if v.S == s {
+		return v
+	}
+	if v.S.Kind == KInt {
+		fc.U.Fun("f64_of_int", []*Sort{SInt}, s)
+		return Val{T: app("f64_of_int", v.T), S: s, GoT: v.GoT}
+	}
+	oos("cannot use %s as float64", v.S.Name)
 	return Val{}
 }
 
-func (fc *FCtx) intToFloat(x Val, from types.Type) Val {
-	oos("int to float conversion")
-	return Val{}
-}
+func (fc *FCtx) intToFloat(x Val, from types.Type) Val { return fc.asF64(x) }
 
 func (fc *FCtx) floatToInt(x Val, to types.Type, st *State) Val {
-	oos("float to int conversion")
-	return Val{}
+	s := fc.f64()
+	fc.U.Fun("int_of_f64", []*Sort{s}, SInt)
+	v := Val{T: app("int_of_f64", x.T), S: SInt, GoT: to}
+	st.assume(fc.U.WF(v))
+	return v
 }
+
+func (fc *FCtx) floatConst(text string, t types.Type) Val {
+	s := fc.f64()
+	n := "f64c_" + sanitize(text)
+	fc.U.Const(n, s)
+	return Val{T: n, S: s, GoT: t}
+}
+
+func (fc *FCtx) fcmp(op token.Token, x, y Val) string {
+	s := fc.f64()
+	name := map[token.Token]string{token.LSS: "f64_lt", token.LEQ: "f64_le", token.GTR: "f64_lt", token.GEQ: "f64_le", token.EQL: "f64_eq", token.NEQ: "f64_eq"}[op]
+	fc.U.Fun(name, []*Sort{s, s}, SBool)
+	a, b := fc.asF64(x).T, fc.asF64(y).T
+	switch op {
+	case token.GTR, token.GEQ:
+		a, b = b, a
+	}
+	t := app(name, a, b)
+	if op == token.NEQ {
+		t = not(t)
+	}
+	return t
+}
+
+var _ = fmt.Sprint
